@@ -53,6 +53,8 @@ static const Scenario kScenarios[] = {
   /* 22 */ { "self_cycle", { RULES "build a: cc a\nbuild p: phony p\nbuild d: cc s p\nbuild q | q.extra: phony q\nbuild top: cc s q\n", NULL, NULL }, "s", "a d top", { { "a", "", EXPECT_CYCLE, NULL }, { "q", "", EXPECT_CYCLE, NULL }, { "top", "", EXPECT_CYCLE, NULL }, { NULL } } },
   /* 23 */ { "cycle_by_dyndep_running", { RULES "rule mkdd\n  command = scan $in > $out\nbuild dd: mkdd ddsrc\nbuild rout: cc o2\nbuild out: cc rout || dd\n  dyndep = dd\n", NULL, NULL }, "ddsrc o2", "out",
             { { "dd", "", 0, "ninja_dyndep_version = 1\nbuild out | o2: dyndep\n" }, { "out", "", EXPECT_CYCLE, NULL }, { NULL } } },
+  /* 24 */ { "independent_depfile_edges", { RULES "build a.o: cc a.c\nbuild dir/lib: cc a.o\nbuild b.o: ccd b.c\nbuild c.o: ccf c.c\nbuild all: phony dir/lib b.o c.o\n", NULL, NULL },
+            "a.c b.c c.c hdr", "all", { { "b.o", "hdr", 0, NULL }, { "c.o", "hdr", 0, NULL }, { NULL } } },
 };
 #ifndef SCENARIO
 #define SCENARIO 0
